@@ -30,6 +30,7 @@ import (
 
 	"github.com/miekg/dns"
 	"github.com/semihalev/sdns/internal/dnsname"
+	"github.com/semihalev/sdns/internal/dnsutil"
 )
 
 // ------------------------------------------------------------- records
@@ -961,6 +962,34 @@ func vC14ErrCode(err error) int {
 	return 4
 }
 
+// vC14WalkErrCode names the error verifyOneSig / VerifyRRSIG returned: 0 nil, 1 ErrMissingSigned,
+// 2 ErrMissingDNSKEY, 3 dns.ErrSig, 5 ErrInvalidSignaturePeriod, 6 dns.ErrAlg, 7 ErrNoSignatures,
+// 9 another sentinel of the package (none is documented for these two functions), 4 anything else
+// (an error of the library's packer).  Sentinels are compared by identity.
+func vC14WalkErrCode(err error) int {
+	switch err {
+	case nil:
+		return 0
+	case error(ErrMissingSigned):
+		return 1
+	case error(ErrMissingDNSKEY):
+		return 2
+	case error(dns.ErrSig):
+		return 3
+	case error(ErrInvalidSignaturePeriod):
+		return 5
+	case error(dns.ErrAlg):
+		return 6
+	case error(ErrNoSignatures):
+		return 7
+	}
+	var ede *dnsutil.EDEError
+	if errors.As(err, &ede) || IsWorkError(err) {
+		return 9
+	}
+	return 4
+}
+
 // vC14CryptoOracle evaluates the elliptic primitives on msg for (key, sig).
 func vC14CryptoOracle(k *dns.DNSKEY, s *dns.RRSIG, msg []byte) vC14Oracle {
 	o := vC14Oracle{msg: msg, hids: vC14HashIDFor(s.Algorithm)}
@@ -1024,8 +1053,8 @@ func TestVerifC14Sig(t *testing.T) {
 	if !time.Unix(vC14Inception, 0).Before(time.Now()) || !time.Unix(vC14Expiration, 0).After(time.Now()) {
 		t.Fatal("fixed validity window no longer contains the present")
 	}
-	// spread the expensive keys evenly over the run (about 38% of the cases reach pick)
-	verifyCases := float64(n) * 0.38
+	// spread the expensive keys evenly over the run (about 34% of the cases reach pick)
+	verifyCases := float64(n) * 0.34
 	pr2 := 1.2 * float64(budget2) / verifyCases
 	pr1 := 1.6 * float64(budget1) / verifyCases
 	pick := func() *vC14SigKey {
@@ -1062,9 +1091,9 @@ func TestVerifC14Sig(t *testing.T) {
 			vC14CaseSigned(tr, r, cheap)
 		case x < 40:
 			vC14CaseBinding(tr, r, cheap)
-		case x < 78:
+		case x < 74:
 			vC14CaseVerify(tr, r, pick(), keys)
-		case x < 88:
+		case x < 85:
 			vC14CaseOneSig(tr, r, cheap, keys)
 		default:
 			vC14CaseMsg(tr, r, cheap)
@@ -1136,6 +1165,46 @@ func vC14Probes(tr *vC14Trace, r *rand.Rand, keys []*vC14SigKey) {
 	tr.emit("probe-302-labels", fmt.Sprintf("CaseProbe %s %s %s %d (Some %s)", vC14Key(s2.k), vC14SigCoq(s2.sig), vC14SetCoq(s2.set), vC14ErrCode(err2), vC14Bool(lib2)), "", false,
 		map[string]any{"labels": dns.CountLabel(owner), "sig_labels": 100, "binding": fmt.Sprint(err2), "lib_preflight": lib2,
 			"note": "outside the input domain: a name of 302 labels does not fit a DNS message"})
+	// (c) an RRSIG whose signer field lacks the final dot, next to its fully-qualified twin: the two have one
+	// identity (rrsigID applies dns.Fqdn), the first of the two is kept, and the relative one names no key
+	// (strings.EqualFold on the raw names) — the witness of sig_order_needs_fqdn_signers
+	s3 := vC14NewScn(r, keys[0])
+	for bad := true; bad; {
+		t := s3.set[0].rr.Header().Rrtype
+		bad = s3.zone == "." || !s3.signedOK || t == dns.TypeRRSIG || t == dns.TypeCNAME || t == dns.TypeDNAME
+		if bad {
+			s3 = vC14NewScn(r, keys[0])
+		}
+	}
+	relSig := dns.Copy(s3.sig).(*dns.RRSIG)
+	relSig.SignerName = strings.TrimSuffix(relSig.SignerName, ".")
+	keyMap := map[uint16][]*dns.DNSKEY{s3.sig.KeyTag: {s3.k}}
+	for _, first := range []bool{true, false} {
+		var ans []vC14MItem
+		for i := range s3.set {
+			ans = append(ans, vC14MItem{rec: &s3.set[i]})
+		}
+		name := "probe-relative-signer-second"
+		if first {
+			ans = append(ans, vC14MItem{sig: relSig}, vC14MItem{sig: s3.sig})
+			name = "probe-relative-signer-first"
+		} else {
+			ans = append(ans, vC14MItem{sig: s3.sig}, vC14MItem{sig: relSig})
+		}
+		msg := new(dns.Msg)
+		msg.Answer = vC14ItemsRR(ans)
+		var ok bool
+		var verr error
+		pan := vC14Guard(func() { ok, verr = VerifyRRSIG(s3.zone, keyMap, msg) })
+		ref, _, groups := vC14RefWalk(s3.zone, keyMap, msg.Answer, nil)
+		orcs, ecp, ev, conflict := vC14MsgOracles(keyMap, groups, ans)
+		coq := ""
+		if !conflict && pan == "" {
+			coq = fmt.Sprintf("CaseMsgProbe %s [(%d%%N, [%s])] %s [] %s %s %s %d%%N", vC14Str(s3.zone), s3.sig.KeyTag, vC14Key(s3.k), vC14ItemsCoq(ans), orcs, ecp, ev, vC14WalkErrCode(verr))
+		}
+		tr.emit(name, coq, "", false, map[string]any{"zone": s3.zone, "relative_signer": relSig.SignerName, "ok": ok, "err": fmt.Sprint(verr), "panic": pan, "reference": ref,
+			"note": "outside the input domain: names out of the unpacker are fully qualified"})
+	}
 }
 
 // ---- rrsigSignedData
@@ -1375,6 +1444,80 @@ func vC14CaseConcurrent(tr *vC14Trace, r *rand.Rand, cheap []*vC14SigKey, keys [
 	tr.emit("concurrent-callers", "", fail, true, map[string]any{"inputs": len(items), "workers": workers, "rounds": rounds, "disagreements": total})
 }
 
+// vC14TagTwin is another key with the tag, algorithm, flags and owner of k: two 16-bit words of the key
+// material change places (the tag is a sum of words).  Both are eligible candidates for a signature that names
+// the tag, so the walk has to try both and — when neither verifies — reports the error of the one that sorts
+// last by identity.  Only for the cheap (non-RSA) algorithms; nil when the words are equal.
+func vC14TagTwin(k *dns.DNSKEY, at int) *dns.DNSKEY {
+	if vC14IsRSA(k.Algorithm) || k.Algorithm == dns.RSAMD5 {
+		return nil
+	}
+	raw, err := base64.StdEncoding.DecodeString(k.PublicKey)
+	if err != nil || len(raw) < 4 {
+		return nil
+	}
+	i := 2 * (at % (len(raw)/2 - 1))
+	if raw[i] == raw[i+2] && raw[i+1] == raw[i+3] {
+		return nil
+	}
+	raw[i], raw[i+1], raw[i+2], raw[i+3] = raw[i+2], raw[i+3], raw[i], raw[i+1]
+	tw := dns.Copy(k).(*dns.DNSKEY)
+	tw.PublicKey = base64.StdEncoding.EncodeToString(raw)
+	a, pa := vC14LibKeyTag(k)
+	b, pb := vC14LibKeyTag(tw)
+	if pa || pb || a != b {
+		return nil
+	}
+	return tw
+}
+
+// vC14FailingSigs makes two or three signatures for the scenario's RRset that all fail, each for another
+// reason (the number in the name is the error verifyOneSig gives), in random order.  Every one differs from
+// the good signature in its signature octets, so that the recorded primitive verdicts stay keyed uniquely.
+func vC14FailingSigs(r *rand.Rand, s *vC14Scn) ([]*dns.RRSIG, string) {
+	flip := func(g *dns.RRSIG) {
+		raw, err := base64.StdEncoding.DecodeString(g.Signature)
+		if err != nil || len(raw) == 0 {
+			return
+		}
+		raw[r.Intn(len(raw))] ^= 1 << uint(r.Intn(8))
+		g.Signature = base64.StdEncoding.EncodeToString(raw)
+	}
+	var out []*dns.RRSIG
+	var names []string
+	for _, v := range r.Perm(6)[:2+r.Intn(2)] {
+		g := dns.Copy(s.sig).(*dns.RRSIG)
+		switch v {
+		case 0:
+			flip(g)
+			names = append(names, "flipped3")
+		case 1:
+			g.Expiration = 1600000000 + uint32(r.Intn(1000))
+			c := &vC14Scn{key: s.key, zone: s.zone, k: s.k, set: s.set, sig: g}
+			c.resign()
+			names = append(names, "expired5")
+		case 2:
+			g.KeyTag += uint16(1 + r.Intn(3))
+			flip(g)
+			names = append(names, "othertag2")
+		case 3:
+			g.Algorithm = []uint8{0, 1, 3, 6, 12, 16, 17, 253}[r.Intn(8)]
+			flip(g)
+			names = append(names, "algorithm6")
+		case 4:
+			g.Labels = uint8(dns.CountLabel(g.Hdr.Name) + 1 + r.Intn(2))
+			flip(g)
+			names = append(names, "labels1")
+		case 5:
+			g.Inception += uint32(1 + r.Intn(1000))
+			flip(g)
+			names = append(names, "inception3")
+		}
+		out = append(out, g)
+	}
+	return out, strings.Join(names, ",")
+}
+
 // ---- verifyOneSig
 
 func vC14CaseOneSig(tr *vC14Trace, r *rand.Rand, cheap []*vC14SigKey, keys []*vC14SigKey) {
@@ -1399,6 +1542,18 @@ func vC14CaseOneSig(tr *vC14Trace, r *rand.Rand, cheap []*vC14SigKey, keys []*vC
 		}
 		cands = append(cands, d)
 	}
+	if r.Intn(3) == 0 {
+		// a second eligible candidate: same tag, algorithm, owner and flags, other material
+		if tw := vC14TagTwin(s.k, r.Intn(64)); tw != nil {
+			cands = append(cands, tw)
+			what += "+tag-twin"
+			if r.Intn(3) == 0 {
+				if tw2 := vC14TagTwin(tw, r.Intn(64)); tw2 != nil {
+					cands = append(cands, tw2)
+				}
+			}
+		}
+	}
 	r.Shuffle(len(cands), func(i, j int) { cands[i], cands[j] = cands[j], cands[i] })
 	keyMap := map[uint16][]*dns.DNSKEY{s.sig.KeyTag: cands}
 	if r.Intn(12) == 0 {
@@ -1411,6 +1566,10 @@ func vC14CaseOneSig(tr *vC14Trace, r *rand.Rand, cheap []*vC14SigKey, keys []*vC
 		fail = "verifyOneSig panicked: " + p
 	}
 	valid := s.sig.ValidityPeriod(time.Time{})
+	code := vC14WalkErrCode(err)
+	if fail == "" && code == 9 {
+		fail = fmt.Sprintf("verifyOneSig returned an error that is none of the documented ones: %v (%s)", err, what)
+	}
 	supported := false
 	for _, a := range []uint8{5, 7, 8, 10, 13, 14, 15} {
 		supported = supported || s.sig.Algorithm == a
@@ -1462,8 +1621,8 @@ func vC14CaseOneSig(tr *vC14Trace, r *rand.Rand, cheap []*vC14SigKey, keys []*vC
 		}
 		ks = append(ks, fmt.Sprintf("(%d%%N, [%s])", t, strings.Join(p, "; ")))
 	}
-	tr.emit("onesig-"+what, fmt.Sprintf("CaseOneSig [%s] %s %s %s %s [%s] [%s] %s %s %s", strings.Join(ks, "; "), vC14SetCoq(s.set), vC14SigCoq(s.sig), vC14Bool(valid), orcs,
-		strings.Join(ecp, "; "), strings.Join(ev, "; "), vC14Bool(err == nil), vC14Bool(ref), vC14Bool(eq)), fail, true,
+	tr.emit("onesig-"+what, fmt.Sprintf("CaseOneSig [%s] %s %s %s %s [%s] [%s] %s %s %s %d%%N", strings.Join(ks, "; "), vC14SetCoq(s.set), vC14SigCoq(s.sig), vC14Bool(valid), orcs,
+		strings.Join(ecp, "; "), strings.Join(ev, "; "), vC14Bool(err == nil), vC14Bool(ref), vC14Bool(eq), code), fail, true,
 		map[string]any{"what": what, "candidates": len(cands), "sdns": fmt.Sprint(err), "reference_accepts": ref})
 }
 
@@ -1650,10 +1809,15 @@ func vC14MsgOracles(keyMap map[uint16][]*dns.DNSKEY, groups []*vC14RefGroup, ite
 				if e1 != nil {
 					continue
 				}
+				// the elliptic primitives are consulted for signatures of the elliptic algorithms only: a record of
+				// what they say under another algorithm number would shadow the entry of the same key material
+				if !vC14IsECDSA(sg.Algorithm) && sg.Algorithm != dns.ED25519 {
+					continue
+				}
 				o := vC14CryptoOracle(k, sg, msg)
 				pk := fmt.Sprintf("(%s, %s)", vC14Hex(pub), vC14Bool(o.ecp))
 				id := fmt.Sprintf("%d/%x", sg.Algorithm, pub)
-				if !seenP[pk] {
+				if !seenP[pk] && vC14IsECDSA(sg.Algorithm) {
 					if seenP[id] && vC14IsECDSA(sg.Algorithm) {
 						conflict = true
 					}
@@ -1800,6 +1964,29 @@ func vC14CaseMsg(tr *vC14Trace, r *rand.Rand, cheap []*vC14SigKey) {
 			}
 		case 3: // the same signature twice
 			*sec = append(*sec, vC14MItem{sig: dns.Copy(s.sig).(*dns.RRSIG)})
+		case 4, 5, 6: // several signatures that fail for different reasons, in random order, with or without a
+			// good one among them: the walk tries them in identity order, so only the error depends on it
+			bad, names := vC14FailingSigs(r, s)
+			l := make([]vC14MItem, 0, len(bad)+2)
+			for _, g := range bad {
+				l = append(l, vC14MItem{sig: g})
+				if r.Intn(5) == 0 { // and one of them twice, the owner respelled
+					g2 := dns.Copy(g).(*dns.RRSIG)
+					g2.Hdr.Name = vC14MixCase(r, g2.Hdr.Name)
+					l = append(l, vC14MItem{sig: g2})
+				}
+			}
+			if r.Intn(3) == 0 {
+				l = append(l, vC14MItem{sig: s.sig})
+				if what == "all-signed" {
+					what = "failing-siblings(" + names + ")"
+				}
+			} else if !inAuthorityNS {
+				what, expect = "only-failing-signatures("+names+")", false
+			}
+			r.Shuffle(len(l), func(i, j int) { l[i], l[j] = l[j], l[i] })
+			*sec = append(*sec, l...)
+			continue
 		}
 		*sec = append(*sec, vC14MItem{sig: s.sig})
 	}
@@ -1882,8 +2069,31 @@ func vC14CaseMsg(tr *vC14Trace, r *rand.Rand, cheap []*vC14SigKey) {
 			what, expect = what+"+textual-suffix-answer-record", false
 		}
 	}
+	if r.Intn(24) == 0 {
+		// no RRSIG anywhere in the message
+		strip := func(l []vC14MItem) []vC14MItem {
+			var out []vC14MItem
+			for _, it := range l {
+				if it.sig == nil {
+					out = append(out, it)
+				}
+			}
+			return out
+		}
+		ans, ns = strip(ans), strip(ns)
+		what += "+no-signatures"
+		sure = false
+	}
 	keyMap := map[uint16][]*dns.DNSKEY{tag: {k}}
 	switch r.Intn(16) {
+	case 2, 3: // a second eligible candidate under the tag: same tag, algorithm, owner, flags, other material
+		if tw := vC14TagTwin(k, r.Intn(64)); tw != nil {
+			keyMap[tag] = []*dns.DNSKEY{tw, k}
+			if r.Intn(2) == 0 {
+				keyMap[tag] = []*dns.DNSKEY{k, tw}
+			}
+			what += "+tag-twin"
+		}
 	case 0: // a second candidate under the tag
 		o := cheap[r.Intn(len(cheap))]
 		keyMap[tag] = []*dns.DNSKEY{o.dnskey(zone, 257), k}
@@ -1910,9 +2120,14 @@ func vC14CaseMsg(tr *vC14Trace, r *rand.Rand, cheap []*vC14SigKey) {
 		fail = "VerifyRRSIG panicked: " + p
 	}
 	got := ok && err == nil
+	code := vC14WalkErrCode(err)
 	ref, eq, groups := vC14RefWalk(signer, keyMap, msg.Answer, msg.Ns)
 	if fail == "" {
-		if got && !ref {
+		if ok != (err == nil) {
+			fail = fmt.Sprintf("VerifyRRSIG = (%v, %v): the verdict and the error disagree (%s)", ok, err, what)
+		} else if code == 9 {
+			fail = fmt.Sprintf("VerifyRRSIG returned an error that is none of the documented ones: %v (%s)", err, what)
+		} else if got && !ref {
 			fail = "VerifyRRSIG accepted a message the reference rejects (" + what + ")"
 		} else if eq && got != ref {
 			fail = fmt.Sprintf("VerifyRRSIG = (%v, %v), reference says %v (%s)", ok, err, ref, what)
@@ -1931,8 +2146,8 @@ func vC14CaseMsg(tr *vC14Trace, r *rand.Rand, cheap []*vC14SigKey) {
 			}
 			ks = append(ks, fmt.Sprintf("(%d%%N, [%s])", t, strings.Join(p, "; ")))
 		}
-		coq = fmt.Sprintf("CaseMsg %s [%s] %s %s %s %s %s %s %s %s", vC14Str(signer), strings.Join(ks, "; "), vC14ItemsCoq(ans), vC14ItemsCoq(ns), orcs, ecp, ev,
-			vC14Bool(got), vC14Bool(ref), vC14Bool(eq))
+		coq = fmt.Sprintf("CaseMsg %s [%s] %s %s %s %s %s %s %s %s %d%%N", vC14Str(signer), strings.Join(ks, "; "), vC14ItemsCoq(ans), vC14ItemsCoq(ns), orcs, ecp, ev,
+			vC14Bool(got), vC14Bool(ref), vC14Bool(eq), code)
 	}
 	tr.emit("msg-"+what, coq, fail, true, map[string]any{"zone": zone, "signer": signer, "answer": len(ans), "authority": len(ns), "rrsets": len(groups), "what": what, "ok": ok, "err": fmt.Sprint(err), "reference": ref})
 }
